@@ -384,6 +384,16 @@ def modelsql_valid():
         [("x", 0, "INSERT OR REPLACE INTO known_hosts (hostname, port, fingerprint, first_seen, last_seen) VALUES (?, ?, ?, ?, ?)",
           ("h", 1, A, "f", "l")), ("x", 0, "INSERT OR REPLACE INTO known_hosts (hostname, port, fingerprint, first_seen, last_seen) VALUES (?, ?, ?, ?, ?)",
           ("h", 1, B, "f2", "l2")), ("c", 0), ("x", 1, selall, ())],
+        [("x", 0, ins, ("h", 1, A, "f", "l")), ("c", 0),
+         ("x", 0, "INSERT INTO known_hosts (hostname, port, fingerprint, first_seen, last_seen) VALUES (:h, :p, :fp, :now, :now) "
+                  "ON CONFLICT (hostname, port) DO UPDATE SET fingerprint = :fp, last_seen = :now", {"h": "h", "p": 1, "fp": B, "now": "n2"}),
+         ("x", 0, "INSERT INTO known_hosts (hostname, port, fingerprint, first_seen, last_seen) VALUES (:h, :p, :fp, :now, :now) "
+                  "ON CONFLICT (hostname, port) DO UPDATE SET fingerprint = fingerprint, last_seen = excluded.last_seen", {"h": "h", "p": 1, "fp": A, "now": "n3"}),
+         ("x", 0, "INSERT INTO known_hosts (hostname, port, fingerprint, first_seen, last_seen) VALUES (?, ?, ?, ?, ?) "
+                  "ON CONFLICT (hostname, port) DO NOTHING", ("h", 1, A, "zz", "zz")),
+         ("x", 0, "INSERT INTO known_hosts (hostname, port, fingerprint, first_seen, last_seen) VALUES (:h, :p, :fp, :now, :now) "
+                  "ON CONFLICT (hostname, port) DO UPDATE SET fingerprint = :fp", {"h": "new", "p": 2, "fp": A, "now": "n4"}),
+         ("c", 0), ("x", 1, selall, ())],
     ]
     n = 0
     bad = []
